@@ -1549,7 +1549,7 @@ def run(ck: common.Check):
     cases.extend(lineage_cases(ck.rng, 3, 1500 if ck.quick else 20000))
     cases.extend(history_cases(ck.rng, 600 if ck.quick else 8000, 600 if ck.quick else 8000))
     store_cases = list(dispatch_store_cases(full=not ck.quick)) + list(reader_decl_cases(full=not ck.quick))
-    store_cases += list(config_history_cases(ck.rng, 150 if ck.quick else 3000))
+    store_cases += list(config_history_cases(ck.rng, 80 if ck.quick else 3000))
     ck.extra["corpus_cases"] = n_corpus
     ck.extra["graph_exhaustive_cases"] = n_exh
 
